@@ -8,8 +8,8 @@
    or its first offending token is the first one for which the table has no
    action - everything before it is a viable prefix.  The diagnostic must name
    the file and the line and column of that token; if the sequence merely ends
-   too early the specification must be rejected without pointing at a token
-   that is not the culprit.                                                 *)
+   too early the specification must be rejected without pointing at (the
+   beginning or the inside of) a token of the text.                                                *)
 EXTENDS Integers, Sequences, FiniteSets, TLC, Json
 
 Doc == JsonDeserialize("doctable.json")
@@ -36,11 +36,13 @@ RECURSIVE FirstErr(_, _, _)
 FirstErr(kinds, j, st) == IF j > Len(kinds) THEN (IF Feed(st, "t:$end") = <<0>> THEN 0 ELSE j)
                           ELSE LET s2 == Feed(st, "t:" \o kinds[j]) IN IF s2 = <<>> THEN j ELSE FirstErr(kinds, j + 1, s2)
 
+\* the reported position lies on token i (anywhere from its first to its last character)
+Inside(o, c, i) == o.ln = c.pos[i][1] /\ o.col >= c.pos[i][2] /\ o.col < c.pos[i][2] + c.lens[i]
 ObsOk(o, c, fe) ==
   IF fe = 0 THEN TRUE                                            \* syntactically fine: a later (semantic) error is not C20's business
   ELSE /\ ~o.ok
        /\ IF fe <= Len(c.kinds) THEN o.haspos /\ o.hasfile /\ <<o.ln, o.col>> = <<c.pos[fe][1], c.pos[fe][2]>>
-          ELSE ~o.haspos \/ (Len(c.kinds) = 0) \/ <<o.ln, o.col>> \notin { <<c.pos[i][1], c.pos[i][2]>> : i \in 1..Len(c.kinds) }
+          ELSE ~o.haspos \/ (Len(c.kinds) = 0) \/ ~\E i \in 1..Len(c.kinds) : Inside(o, c, i)
 Check(c) == LET fe == FirstErr(c.kinds, 1, <<1>>) IN
             /\ (fe = 0 => c.p.ok /\ c.a.ok) \/ PrintT("FALSEREJECT " \o ToJson([id |-> c.id, fe |-> fe]))
             /\ (ObsOk(c.p, c, fe) /\ ObsOk(c.a, c, fe) /\ ObsOk(c.s, c, fe)) \/ PrintT("WRONGPOS " \o ToJson([id |-> c.id, fe |-> fe]))
